@@ -148,20 +148,80 @@ def invalid_shape(stmt: dict) -> str:
     return "not-fixed-point:length"
 
 
-def alias_case_shape(engine, steps):
-    """shape predicate of the display-name defect: an ORDER BY written into the block whose select list has just been
-    re-aliased with display names, on a dialect that resolves quoted identifiers case-sensitively"""
-    kinds = [s[0] for s in steps]
-    return engine in ("snowflake", "postgres") and "orderBy" in kinds
+ALIASING_STEPS = ("select", "withColumn", "rename", "toDF", "agg", "unpivot", "fillna", "replace", "drop", "dropna", "dropDup")
 
 
-def signature(engine, m, what):
-    return f"C12/{engine}/{what}"
+def case_sensitive_dialect(dialect: str) -> bool:
+    """does the dialect resolve QUOTED identifiers case-sensitively (Snowflake, Postgres, ...)?  Read from sqlglot."""
+    from sqlglot.dialects.dialect import Dialect, NormalizationStrategy
+    try:
+        return Dialect.get_or_raise(dialect).NORMALIZATION_STRATEGY in (NormalizationStrategy.UPPERCASE, NormalizationStrategy.LOWERCASE)
+    except Exception:
+        return False
+
+
+def alias_case_clauses(sql: str, dialect: str) -> list:
+    """ROOT CAUSE of the display-alias defect, read off the emitted statement: the clauses (order/where/group/having) of a
+    SELECT that name an identifier K while the select list of the SAME SELECT carries an alias A with lower(K) = lower(A), K <> A
+    (and K is not itself an alias there).  On a dialect that resolves quoted identifiers case-sensitively K then denotes the
+    input column, or nothing at all, instead of the output column the program's orderBy/where meant."""
+    import sqlglot
+    from sqlglot import exp
+    try:
+        tree = sqlglot.parse_one(sql, read=dialect)
+    except Exception:
+        return []
+    hits = []
+    for sel in tree.find_all(exp.Select):
+        aliases = {e.alias for e in sel.expressions if isinstance(e, exp.Alias)}
+        if not aliases:
+            continue
+        low = {}
+        for a in aliases:
+            low.setdefault(a.lower(), set()).add(a)
+        for clause in ("order", "where", "group", "having"):
+            node = sel.args.get(clause)
+            if node is None:
+                continue
+            for col in node.find_all(exp.Column):
+                if col.find_ancestor(exp.Select) is not sel:
+                    continue
+                k = col.name
+                if k not in aliases and low.get(k.lower()):
+                    hits.append(clause)
+    return sorted(set(hits))
+
+
+def aliases_then_orders(steps) -> bool:
+    """shape predicate on the PROGRAM: a step that gives an output column its name (select/withColumn/rename/toDF/agg/...)
+    followed, later, by an orderBy (the clause the compiler writes into the open SELECT without wrapping)"""
+    seen = False
+    for s in steps:
+        if s[0] in ALIASING_STEPS:
+            seen = True
+        elif s[0] == "orderBy" and seen:
+            return True
+    return False
+
+
+def display_alias_case(dialect: str, steps, stmts) -> str | None:
+    """signature of the display-alias letter-case defect when program shape AND emitted statement show its root cause
+    (whatever the symptom: statement rejected, or silently ordered by the input column)"""
+    if not case_sensitive_dialect(dialect) or (steps is not None and not aliases_then_orders(steps)):
+        return None
+    clauses = []
+    for st in stmts or []:
+        if st.get("sql"):
+            clauses += alias_case_clauses(st["sql"], dialect)
+    if not clauses:
+        return None
+    if "order" in clauses:
+        return f"C12/{dialect}/order-by-key-vs-display-alias-case"
+    return f"C12/{dialect}/{'+'.join(sorted(set(clauses)))}-key-vs-display-alias-case"
 
 
 def classify_core(engine, steps, ent, verdict):
-    """-> (kind, signature, what) for an engine-vs-DuckDB disagreement on a relational-core case.
-    kind: 'deviation' (sqlframe's doing), 'reader' (the dialect reader cannot judge; logged), None (agree)"""
+    """-> (kind, signature, what) for an engine-vs-DuckDB disagreement on a relational-core case (None = agree)"""
     es, ed, dom, eraised, draised = (ch == "1" for ch in verdict[2:])
     if draised:
         return None, None, None          # the DuckDB session itself failed: C01's business, nothing to compare with
@@ -171,34 +231,20 @@ def classify_core(engine, steps, ent, verdict):
     if bad:
         return "deviation", f"C12/{engine}/core:{invalid_shape(bad[0])}", \
             "a relational-core statement does not parse in the execution dialect / re-rendering its parse changes it"
+    if eraised or not ed:
+        sig = display_alias_case(engine, steps, stmts)
+        if sig:
+            return "deviation", sig, ("a clause of the final SELECT names the dialect-normalised identifier while the select list of the same SELECT "
+                                      "was re-aliased to the display name of another letter case: "
+                                      + ("the engine rejects the statement" if eraised else "the key binds to the input column, rows come in another order"))
     if eraised:
-        if "BinderException" in err and "not found in FROM clause" in err and order_by_after_projection(steps) \
-                and engine == "snowflake":
-            return "deviation", "C12/snowflake/order-by-key-vs-display-alias-case", \
-                "ORDER BY names the upper-cased identifier while the select list was re-aliased to the lower-case display name"
-        return "deviation", signature(engine, ent, "statement-rejected:" + err.split(":")[2] if err.count(":") >= 2 else "statement-rejected"), \
+        kind = err.split(":")[2] if err.count(":") >= 2 else "unknown"
+        return "deviation", f"C12/{engine}/statement-rejected:{kind}", \
             "the engine (dialect reader) rejects the statement while the DuckDB session answers"
     if not ed:
-        if engine == "snowflake" and order_by_after_projection(steps):
-            return "deviation", "C12/snowflake/order-by-key-vs-display-alias-case", \
-                "ORDER BY binds to the input column instead of the re-aliased output column"
-        return "deviation", signature(engine, ent, "rows-or-names-differ:" + ">".join(s[0] for s in steps[-3:])), \
+        return "deviation", f"C12/{engine}/rows-or-names-differ:" + ">".join(s[0] for s in steps[-3:]), \
             "rows / column order / names differ from the DuckDB session"
     return None, None, None
-
-
-def order_by_after_projection(steps):
-    """an orderBy that is written into the same block as a projection computed before it (no wrap in between)"""
-    seen_proj = False
-    for s in steps:
-        k = s[0]
-        if k in ("select", "withColumn", "rename", "drop"):
-            seen_proj = True
-        elif k == "orderBy" and seen_proj:
-            return True
-        elif k in ("limit",):
-            pass
-    return False
 
 
 def run(ctx: core.Ctx):
@@ -456,14 +502,10 @@ def compare_probes(ctx, results, duck):
                     "statements": [{k: s.get(k) for k in ("sql", "parse", "fixed_point", "error")} for s in p["statements"]]}
             if any(not s["parse"] or not s["fixed_point"] for s in p["statements"]):
                 ctx.deviation(f"C12/{e}/probe-statement-invalid:{p['probe']}", "statement does not parse / is not a fixed point", desc)
-            elif p["probe"].startswith("orderBy-") and e in ("snowflake", "postgres"):
-                upper = "Upper" in p["probe"]
-                if (e == "snowflake") != upper:
-                    ctx.deviation(f"C12/{e}/order-by-key-vs-display-alias-case",
-                                  f"[{e}] ORDER BY names the dialect-normalised identifier while the select list carries the display-name alias "
-                                  f"of another letter case ({p['probe']})", desc)
-                else:
-                    ctx.deviation(f"C12/{e}/probe-differs:{p['probe']}", "differs from the DuckDB session", desc)
+            elif display_alias_case(e, None, p["statements"]):
+                ctx.deviation(display_alias_case(e, None, p["statements"]),
+                              f"[{e}] a clause of the final SELECT names the dialect-normalised identifier while the select list carries the "
+                              f"display-name alias of another letter case ({p['probe']})", desc)
             else:
                 ctx.deviation(f"C12/{e}/probe-differs:{p['probe']}", "differs from the DuckDB session", desc)
     return out
@@ -557,9 +599,10 @@ def check_actions(ctx, results, plans):
                 ctx.deviation(f"C12/{e}/action:{invalid_shape(bad[0])}", f"[{e}] {a['action']}(): statement does not parse / is not a fixed point", desc)
                 continue
             if a["exc"] and not a["exc"].startswith("NotImplementedError"):
-                if e == "snowflake" and "not found in FROM clause" in a["exc"] and order_by_after_projection(steps):
-                    ctx.deviation("C12/snowflake/order-by-key-vs-display-alias-case",
-                                  f"[snowflake] {a['action']}(): ORDER BY names the upper-cased identifier, the select list the lower-case display alias", desc)
+                sig = display_alias_case(e, steps, a["statements"])
+                if sig:
+                    ctx.deviation(sig, f"[{e}] {a['action']}(): a clause of the final SELECT names the normalised identifier, the select list the "
+                                       f"display alias of another letter case", desc)
                 else:
                     ctx.deviation(f"C12/{e}/action-raises:{a['action']}", f"[{e}] {a['action']}() raises {a['exc'][:80]}", desc)
                 continue
